@@ -35,6 +35,7 @@ def gen_presentation(rng, n, canonical=False, path='LIB'):
              'gapfrac': rng.choice([0.0, 0.05, 0.3, 0.6, 0.9, 0.95]) if fmt != 'fasta' else rng.choice([0.0, 0.0, 0.1]),
              'gapsym': rng.choice({'fasta': '-', 'afasta': '-.', 'msf': '.~-', 'clu': '-'}[fmt]),
              'blank': rng.choice([0, 0, 1, 3]) if fmt in ('fasta', 'afasta') else 0,
+             'ragged': 1 if (fmt in ('clu', 'msf') and rng.random() < 0.3) else 0, 'counts': 1 if (fmt == 'clu' and rng.random() < 0.15) else 0, 'cons': 1 if (fmt == 'clu' and rng.random() < 0.2) else 0,
              'crlf': 1 if rng.random() < 0.15 else 0, 'trail': rng.choice(['', '', ' ', '  \t']) if fmt in ('fasta', 'afasta') else '',
              'seed': rng.getrandbits(32)}
         sources.append(s)
@@ -103,9 +104,13 @@ def render_source(wl, src):
         return parsers.emit_fasta(names, rows, width=src['width'], blank_every=src['blank'], crlf=bool(src['crlf']), trail=src['trail'].encode())
     if fmt == 'clu':
         hdr = rng.choice([b'CLUSTAL W (1.83) multiple sequence alignment', b'CLUSTAL O(1.2.4) multiple sequence alignment', b'Kalign (3.4.1) multiple sequence alignment'])
-        return parsers.emit_clustal(names, rows, width=src['width'], header=hdr, crlf=bool(src['crlf']), pad=rng.choice([1, 2, 6]))
+        # blanks only: kalign cuts every input line at the first control character (a tab included), and a tab
+        # is not "padding" in any of the three formats
+        rag = [rng.choice([b' ', b'  ', b'     ', b'   ', b'          ']) for _ in range(7)] if src.get('ragged') else None
+        return parsers.emit_clustal(names, rows, width=src['width'], header=hdr, crlf=bool(src['crlf']), pad=rng.choice([1, 2, 6]), ragged=rag, counts=bool(src.get('counts')), cons=bool(src.get('cons')))
     kind = 'P' if wl['kind'] == 'protein' else 'N'
-    return parsers.emit_msf(names, rows, width=src['width'], group=rng.choice([0, 10]), kind=kind, crlf=bool(src['crlf']), gapch=sym.encode())
+    rag = [rng.choice([b' ', b'  ', b'      ', b'   ']) for _ in range(5)] if src.get('ragged') else None
+    return parsers.emit_msf(names, rows, width=src['width'], group=rng.choice([0, 10]), kind=kind, crlf=bool(src['crlf']), gapch=sym.encode(), ragged=rag)
 
 
 def plan_for(spec, pres, tag):
@@ -191,7 +196,7 @@ def _outcome(res, ix):
 
 
 def pres_signature(pres):
-    return '%s|%d|%s' % (pres['path'], pres['chunk_mode'], ';'.join('%s:%s:%d:%s:%s:%d:%d:%d' % (s['where'], s['fmt'], s['width'], s['gapfrac'], s['gapsym'], s['blank'], s['crlf'], len(s['recs'])) for s in pres['sources']))
+    return '%s|%d|%s' % (pres['path'], pres['chunk_mode'], ';'.join('%s:%s:%d:%s:%s:%d:%d:%d%s' % (s['where'], s['fmt'], s['width'], s['gapfrac'], s['gapsym'], s['blank'], s['crlf'], len(s['recs']), (':ragged' if s.get('ragged') else '') + (':counts' if s.get('counts') else '') + (':cons' if s.get('cons') else '')) for s in pres['sources']))
 
 
 def judge(spec, results):
@@ -325,7 +330,9 @@ def shrinks(spec, viol):
             s['pres'][k]['sources'] = [dict(p['sources'][0], recs=list(range(n)))]
             yield s
         for j, src in enumerate(p['sources']):
-            for key, val in (('where', 'file'), ('crlf', 0), ('blank', 0), ('trail', ''), ('gapfrac', 0.0), ('width', 60), ('fmt', 'afasta'), ('fmt', 'fasta')):
+            for key, val in (('where', 'file'), ('crlf', 0), ('blank', 0), ('trail', ''), ('ragged', 0), ('counts', 0), ('cons', 0), ('gapfrac', 0.0), ('width', 60), ('fmt', 'afasta'), ('fmt', 'fasta')):
+                if key not in src:
+                    continue
                 if src[key] != val:
                     s = copy.deepcopy(spec); s['pres'][k]['sources'][j][key] = val
                     if key == 'fmt':
